@@ -260,3 +260,23 @@ def diverges(fn):
     cfg = cfg_of(fn)
     live = cfg.live_nodes()
     return not any(b in live for b in cfg.return_blocks())
+
+
+def callers_of(facts, key):
+    """sorted root functions (closures folded into their lexical parent) that call `key` (by key or resolved key)"""
+    out = set()
+    for f in facts.fns.values():
+        for bid, t in f.calls():
+            c = t["callee"]
+            if c["key"] == key or c.get("resolved") == key:
+                out.add(f.key.split("::{closure")[0])
+    return sorted(out)
+
+
+def who_may_call(ctx, rule, facts, key, allowed, why):
+    """layering rule: `key` is called only from the listed functions"""
+    cs = callers_of(facts, key)
+    extra = [c for c in cs if c not in allowed]
+    return ctx.ob(rule, key, "who-may-call", not extra and bool(cs),
+                  "%s is also called from %s (%s)" % (key, extra, why) if cs else "%s has no callers" % key,
+                  sample="callers: %s" % [c.rsplit("::", 1)[-1] for c in cs])
